@@ -2735,6 +2735,13 @@ class QuaternionArray(np.ndarray):
         if method.lower() not in ['chiaverini', 'hughes', 'itzhack', 'sarabandi', 'shepperd']:
             raise ValueError(f"Method '{method}' not available. Options are: 'chiaverini', 'hughes', 'itzhack', 'sarabandi', and 'shepperd'.")
         _assert_iterables(DCM, 'Direction Cosine Matrices')
+        DCM = np.asarray(DCM)
+        if DCM.ndim != 3 or DCM.shape[-2:] != (3, 3):
+            raise ValueError(f"Expected matrices of size (N, 3, 3). Got {DCM.shape}")
+        in_SO3 = np.allclose(np.linalg.det(DCM), 1.0)
+        in_SO3 &= np.allclose(DCM@np.transpose(DCM, (0, 2, 1)), np.identity(3))
+        if not in_SO3:
+            raise ValueError("Given Direction Cosine Matrices are not in SO(3).")
         # Allocate local quaternion array
         quaternion_array = np.zeros((DCM.shape[0], 4))
         try:
